@@ -17,10 +17,10 @@ EXTRA = {
     "C18": "Additional note: on the unmodified tree",
 }
 for pid in ids:
-    src = "/tmp/prompt_%s_%s.txt" % (pid, prev)
-    text = open(src).read().replace("/tmp/wt_%s_%s" % (pid, prev), "/tmp/wt_%s_%s" % (pid, new))
+    src = "/tmp/prompt_%s_%s.txt" % (pid, prev.split(",")[0])
+    text = open(src).read().replace("/tmp/wt_%s_%s" % (pid, prev.split(",")[0]), "/tmp/wt_%s_%s" % (pid, new))
     used = []
-    for d in sorted(glob.glob(os.path.join(V, "seeded", "%s-%s*" % (pid, prev)))):
+    for d in sorted(x for pv in prev.split(",") for x in glob.glob(os.path.join(V, "seeded", "%s-%s*" % (pid, pv)))):
         m = json.load(open(os.path.join(d, "meta.json")))
         note = (m.get("needs_to_manifest") or "").strip().splitlines()
         if note:
